@@ -57,7 +57,7 @@ theorem lowerE_total : ∀ (e : Expr) (c : Nat), shapedE e = true → (lowerE e 
     obtain ⟨⟨a, b, c1⟩, h1⟩ := Option.isSome_iff_exists.mp (lowerCtorArgs_total args c (by simpa [shapedE] using h))
     simp [lowerE, h1]
   | .record fs, c, h => by
-    obtain ⟨⟨a, c1⟩, h1⟩ := Option.isSome_iff_exists.mp (lowerFields_total fs (.t c) 0 (c + 1) (by simpa [shapedE] using h))
+    obtain ⟨⟨a, b, c1⟩, h1⟩ := Option.isSome_iff_exists.mp (lowerCtorArgs_total fs c (by simpa [shapedE] using h))
     simp [lowerE, h1]
   | .list es, c, h => by
     obtain ⟨⟨a, c1⟩, h1⟩ := Option.isSome_iff_exists.mp (lowerElems_total es (.t c) (.t (c + 1)) (c + 2) (by simpa [shapedE] using h))
@@ -173,13 +173,6 @@ theorem lowerCtorArgs_total : ∀ (es : Exprs) (c : Nat), shapedEs es = true →
     obtain ⟨⟨ce, ve, c1⟩, h1⟩ := Option.isSome_iff_exists.mp (lowerE_total e c h.1)
     obtain ⟨⟨cs, ts, c2⟩, h2⟩ := Option.isSome_iff_exists.mp (lowerCtorArgs_total es (atvNext ve c1) h.2)
     simp [lowerCtorArgs, h1, h2]
-theorem lowerFields_total : ∀ (es : Exprs) (to : Var) (i c : Nat), shapedEs es = true → (lowerFields es to i c).isSome = true
-  | .nil, to, i, c, _ => by simp [lowerFields]
-  | .cons e es, to, i, c, h => by
-    simp [shapedEs] at h
-    obtain ⟨⟨ce, ve, c1⟩, h1⟩ := Option.isSome_iff_exists.mp (lowerE_total e c h.1)
-    obtain ⟨⟨cs, c2⟩, h2⟩ := Option.isSome_iff_exists.mp (lowerFields_total es to (i + 1) c1 h.2)
-    simp [lowerFields, h1, h2]
 theorem lowerElems_total : ∀ (es : Exprs) (lst u : Var) (c : Nat), shapedEs es = true → (lowerElems es lst u c).isSome = true
   | .nil, lst, u, c, _ => by simp [lowerElems]
   | .cons e es, lst, u, c, h => by
